@@ -1,4 +1,6 @@
 import Jrpc.Gen.Facts
+import Jrpc.Gen.Funcs
+import Jrpc.Model.Wire
 import Jrpc.Tie.Util
 /-! # Tie obligations for C10: the guards of the Discipline machine are facts of the current source. -/
 namespace Jrpc.Tie.C10
@@ -28,5 +30,14 @@ theorem reader_goroutines : goCount "server.go" = 5 ∧ goCount "client.go" = 4 
 once, and clear the channel afterwards -/
 theorem close_once_per_start :
     stopGuards = [("server.go", true, 1, true), ("client.go", true, 1, true)] := by decide
+
+/-- opts.go `handleCallback` drops an error's data exactly when the model's `sanitizeError` does
+(`Props.C10.callback_reply_is_message` rests on it) -/
+theorem callback_drop_error_data_matches (e : Jrpc.Wire.ErrVal) :
+    Jrpc.Wire.sanitizeError e =
+      if Jrpc.Gen.Funcs.dropCallbackErrorData (e.data.length : Int) (Jrpc.Json.valid e.data) = true
+      then { code := e.code, msg := e.msg } else e := by
+  unfold Jrpc.Wire.sanitizeError Jrpc.Gen.Funcs.dropCallbackErrorData
+  cases hv : Jrpc.Json.valid e.data <;> by_cases hl : e.data.length = 0 <;> simp [hl]
 
 end Jrpc.Tie.C10
